@@ -11,6 +11,7 @@ import (
 	"os"
 	"path/filepath"
 	"runtime"
+	"sync/atomic"
 
 	"apdsim/driver"
 	"apdsim/engine"
@@ -73,10 +74,16 @@ func workerMain(args []string) {
 	}
 	out := bufio.NewWriterSize(os.Stdout, 1<<16)
 	defer out.Flush()
+	var current atomic.Uint64
+	engine.StartStallMonitor(func() {
+		fmt.Fprintf(os.Stdout, "STALL %d\n", current.Load())
+		os.Exit(4)
+	})
 	for run := *from; run < *to; run += *stride {
 		if *deadline != 0 && engine.Now() > *deadline {
 			break
 		}
+		current.Store(run)
 		fmt.Fprintf(out, "BEGIN %d\n", run)
 		out.Flush()
 		p, res := engine.GenAndRun(*wl, *mode, *seed, run, *tier, *keep)
@@ -135,6 +142,10 @@ func execMain(args []string) {
 		os.Exit(2)
 	}
 	setup()
+	engine.StartStallMonitor(func() {
+		fmt.Printf("STALL %d\n", p.Run)
+		os.Exit(4)
+	})
 	fmt.Printf("BEGIN %d\n", p.Run)
 	res := engine.RunPlan(p, *keep)
 	if *keep {
